@@ -28,7 +28,7 @@ CHECKS = {
     'C09': dict(
         category='exploration', design_ref='DESIGN.md 4/C09',
         technique='exhaustive enumeration of all placements of comment / trailing_comment / both on the nodes of 24 value shapes x an adversarial text alphabet (newlines, blank lines, quotes, #, brackets, 100-column words) x widths; AST equality with the uncommented print and word-subsequence check on the COMMENT tokens',
-        text='For every shape every assignment of {none, comment, trailing comment, both} to its nodes is printed, with all texts on single-comment placements and all text pairs on two-comment placements, at ten (quick) / 42 (thorough) widths. The output must parse to exactly the syntax tree of the uncommented value (so a comma sliding into a comment, or a comment line swallowing an element, is a structural difference), no printer may fall back to repr, and every word of every comment must occur in order inside COMMENT tokens. The suite only checks that commented values do not raise.',
+        text='For every shape every assignment of {none, comment, trailing comment, both} to its nodes is printed, with all texts on single-comment placements and all text pairs on two-comment placements, at 42 (quick) / 63 (thorough) widths, and every placement again under sort_dict_keys, max_seq_len, depth and indent settings against the uncommented print under the same settings. The output must parse to exactly the syntax tree of the uncommented value (so a comma sliding into a comment, or a comment line swallowing an element, is a structural difference), no printer may fall back to repr, and every word of every comment must occur in order inside COMMENT tokens. The suite only checks that commented values do not raise.',
         note='trusted: CPython ast/tokenize; trailing comments are attached only to the types whose printers accept them; shapes are small by design'),
     'C10': dict(
         category='exploration', design_ref='DESIGN.md 4/C10',
@@ -77,7 +77,7 @@ CHECKS = {
         note='trusted: the stub run as definition of containment; exception classes are a fixed list of Exception subclasses (BaseException-only classes are outside the statement); bound: trees <= 3 nodes single faults (quick), <= 4 nodes plus fault pairs (thorough)'),
     'C15': dict(
         category='model_checking', design_ref='DESIGN.md 4/C15',
-        technique='explicit-state BFS over all operation histories up to a depth bound on the real registries (57 operations on a 6-class lattice with multiple inheritance), states merged by a canonical (implementation, reference-model) abstraction, every transition compared with the reference model, merges validated differentially',
+        technique='explicit-state BFS over all operation histories up to a depth bound on the real registries (76 operations on a 6-class lattice with multiple inheritance: register by class / name / predicate incl. an instance-dependent predicate, plain / flagged / comment-wrapped / nested prints, all is_registered flag combinations), states merged by a canonical (implementation, reference-model) abstraction and validated differentially, plus an unmerged exhaustive pass over all histories of length 3',
         text='Breadth-first search over every history of register-by-class / by-name / by-predicate, print and is_registered (all legal flag combinations) up to the depth bound; each transition restores a snapshot of the real registries, replays the history on the real package and compares the observed printer tag or boolean with an MRO-walk reference model. Canonical state hashing (tags renamed in order of appearance) makes depth 5-6 tractable, and every state reached by a second history has its complete outgoing observation vector recomputed and compared, so a wrong merge is reported rather than hidden. Dispatch after arbitrary interleavings is a statement about all histories, which four fixed test orders cannot settle.',
         note='trusted: the reference model in mc/checks/c15.py (about 50 lines); is_registered(check_deferred=False) is constrained only where the statement/pinned tests constrain it; bound: depth 5 (quick) / 6 (thorough) on one lattice'),
     'C17': dict(
@@ -98,7 +98,7 @@ CHECKS = {
     'C20': dict(
         category='model_checking', design_ref='DESIGN.md 4/C20',
         technique='stateless model checking of the real code: real threads under a deterministic cooperative scheduler (sys.settrace line events inside the package), all schedules up to a preemption bound enumerated depth-first over choice prefixes (iterative context bounding), result of every thread compared with the sequential run',
-        text='Two or three real threads perform first-use and repeated pformat calls on a class registered by name, its subclass, a directly registered class, an unregistered object, a struct sequence and small containers; the scheduler can switch at every line boundary inside the package and the explorer enumerates every schedule with at most B preemptions (B = 1 at every line plus B = 2 at the lines of functions that the source shows to touch shared mutable state in the quick tier; B = 2 everywhere / 3 at visible lines in the thorough tier). Every execution must return the sequential texts in every thread, raise nowhere and leave the registries in the sequential end state. The window between the membership test and the pop of the deferred registry is a few bytecodes wide - a stress test almost never hits it, a controlled schedule hits it deterministically.',
+        text='Two or three real threads perform first-use and repeated pformat calls on a class registered by name, its subclass, a directly registered class, an unregistered object, a struct sequence and small containers; the scheduler can switch at every line boundary inside the package and the explorer enumerates every schedule with at most B preemptions (B = 1 at every line, B = 2 at the lines of functions that the source shows to touch shared mutable state, and B = 1 between the individual bytecodes of those functions in the quick tier; B = 2 everywhere / 3 at visible lines / 2 between bytecodes in the thorough tier). Locks found in the package are replaced by cooperative ones, so a lock-based variant neither hangs nor alarms. Every execution must return the sequential texts in every thread, raise nowhere and leave the registries in the sequential end state. The window between the membership test and the pop of the deferred registry is a few bytecodes wide - a stress test almost never hits it, a controlled schedule hits it deterministically.',
         note='trusted: sys.settrace line-event delivery; switches inside functools / warnings / C code are not modelled (atomic), nor are free-threaded builds; visible lines are computed from the package AST, and the all-lines exploration at the lower bound validates that reduction; each schedule is replayable (run-length encoded) and the harness asserts that replaying the empty schedule twice gives identical observations'),
     'C16': dict(
         category='exploration', design_ref='DESIGN.md 4/C16',
